@@ -34,6 +34,9 @@ def may_raise(node: ast.AST) -> bool:
     return False
 
 
+READ_ONLY_PROBES = {'stat', 'lstat', 'exists', 'is_file', 'isfile', 'getsize', 'getmtime'}
+
+
 def run(ctx: Any, prog: Program) -> None:
     core = prog.module('__init__')
     bsp = prog.module('bsp')
@@ -58,6 +61,10 @@ def run(ctx: Any, prog: Program) -> None:
                     ok = True
                 elif isinstance(par, ast.Attribute) and par.attr in ('parent', 'with_name', 'name', 'stem', 'suffix'):
                     ok = True        # pure path arithmetic / creating the parent directory
+                elif isinstance(par, ast.Attribute) and par.attr in READ_ONLY_PROBES:
+                    ok = True        # self.filename.stat() etc: reads metadata, cannot change the destination
+                elif isinstance(par, ast.Call) and n in par.args and (dotted(par.func) or '').split('.')[-1] in READ_ONLY_PROBES:
+                    ok = True        # os.stat(self.filename) etc
                 elif isinstance(par, ast.Call) and isinstance(par.func, ast.Attribute) and par.func.attr == 'replace' and n in par.args \
                         and dotted(par.func.value) == 'self._temp_name':
                     ok = True
@@ -65,6 +72,39 @@ def run(ctx: Any, prog: Program) -> None:
                     ok = True
                 ctx.check('C12.W1', ok, core, n, f'self.filename used as `{how}`: the destination may only be the argument of the final <temp>.replace(); '
                           'opening/truncating/unlinking it breaks "old or new contents, never a mixture"', func=f'AtomicWriter.{name}', text=f'{name}: filename in {how}')
+    # ---- W3 (entry side): once make_tempfile() created the file, __enter__ may not fail without removing it - __exit__ is never
+    # called when __enter__ raises.  Every call after it (other than handing out the handle) must sit in a try with a broad handler.
+    en = aw.get('__enter__')
+    if en is None:
+        raise AnalysisError('AtomicWriter.__enter__ not found')
+    mk = [i for i, st in enumerate(en.body) if isinstance(st, ast.Expr) and isinstance(st.value, ast.Call) and dotted(st.value.func) == 'self.make_tempfile']
+    ctx.shape('C12.W3', len(mk) == 1, core, en, '__enter__ calls self.make_tempfile() once as a top-level statement', func='AtomicWriter.__enter__')
+    if len(mk) == 1:
+        BROAD = {None, 'BaseException', 'Exception', 'OSError'}
+        def broad_try(call: ast.AST) -> bool:
+            cur = core.parents.get(call)
+            prev = call
+            while cur is not None and cur is not en:
+                if isinstance(cur, ast.Try) and any(prev is b or any(prev is x for x in ast.walk(b)) for b in cur.body):
+                    for h in cur.handlers:
+                        names = [None] if h.type is None else [dotted(e) for e in (h.type.elts if isinstance(h.type, ast.Tuple) else [h.type])]
+                        if any(nm in BROAD or (nm or '').split('.')[-1] in BROAD for nm in names):
+                            return True
+                prev, cur = cur, core.parents.get(cur)
+            return False
+        n_after = 0
+        for st in en.body[mk[0] + 1:]:
+            if isinstance(st, ast.Assert):
+                continue
+            for c in ast.walk(st):
+                if isinstance(c, ast.Call):
+                    if isinstance(st, ast.Return) and c is st.value and isinstance(c.func, ast.Attribute) and c.func.attr == '__enter__' and dotted(c.func.value) == 'self.temp':
+                        continue
+                    inner = [x for x in ast.walk(c) if isinstance(x, ast.Call) and x is not c]
+                    n_after += 1
+                    ctx.check('C12.W3', broad_try(c), core, c, f'`{ast.unparse(c)[:60]}` runs after the temp file exists; if it raises, __enter__ fails, __exit__ is never called and the '
+                              'temp file is left behind (only a try with a broad handler protects it)', func='AtomicWriter.__enter__', text=f'call after make_tempfile: {ast.unparse(c.func)}')
+        ctx.check('C12.W3', True, core, en, '__enter__ does nothing fallible between creating the temp file and returning it', func='AtomicWriter.__enter__', text='enter after make_tempfile')
     # ---- W2 / W3 on the CFG of __exit__ ----------------------------------------------------------------------
     ex = aw.get('__exit__')
     if ex is None:
@@ -228,13 +268,45 @@ def run(ctx: Any, prog: Program) -> None:
     ctx.shape('C12.W4', ok, core, first_if[0] if first_if else mt, 're-entering the writer must close and unlink the previous temp file', func='AtomicWriter.make_tempfile', text='re-entry cleanup')
     # ---- W5 ----------------------------------------------------------------------------------------------
     save = bsp.func('BSP.save')
-    withs = [n for n in walk_no_nested(save) if isinstance(n, ast.With) and any(isinstance(i.context_expr, ast.Call) and dotted(i.context_expr.func) == 'AtomicWriter' for i in n.items)]
-    if len(withs) != 1:
+    def _candidates(expr):
+        # the context manager expression itself, or every value the local it names is assigned in save()
+        if isinstance(expr, ast.Name):
+            vals = [a.value for a in walk_no_nested(save) if isinstance(a, (ast.Assign, ast.AnnAssign)) and a.value is not None
+                    and any(isinstance(t, ast.Name) and t.id == expr.id for t in (a.targets if isinstance(a, ast.Assign) else [a.target]))]
+            return vals or [expr]
+        return [expr]
+
+    def _is_aw(v):
+        return isinstance(v, ast.Call) and dotted(v.func) == 'AtomicWriter'
+
+    def _is_open(v):
+        return isinstance(v, ast.Call) and (dotted(v.func) in ('open', 'io.open') or (isinstance(v.func, ast.Attribute) and v.func.attr == 'open'))
+
+    def _expand(v):
+        if isinstance(v, ast.IfExp):
+            return _expand(v.body) + _expand(v.orelse)
+        if isinstance(v, ast.BoolOp):
+            return [x for e in v.values for x in _expand(e)]
+        return [v]
+
+    withs = []
+    for n in walk_no_nested(save):
+        if isinstance(n, ast.With):
+            for i in n.items:
+                cands = [x for c in _candidates(i.context_expr) for x in _expand(c)]
+                if any(_is_aw(c) or _is_open(c) for c in cands):
+                    withs.append((n, i, cands))
+    for wn, wi, wc in withs:
+        for c in wc:
+            ctx.check('C12.W5', _is_aw(c), bsp, c, f'BSP.save opens an output with `{ast.unparse(c)[:60]}`; the destination must only be written through AtomicWriter', func='BSP.save', text='output context manager')
+    main = [t for t in withs if any(_is_aw(c) for c in t[2])]
+    if len(main) != 1:
         raise AnalysisError('BSP.save: expected exactly one `with AtomicWriter(...)` block')
-    w = withs[0]
-    item = w.items[0]
+    w, item, cands = main[0]
+    cands = [c for t in withs for c in t[2]]
+    aw_calls = [c for c in cands if _is_aw(c)]
     handle = item.optional_vars.id if isinstance(item.optional_vars, ast.Name) else None
-    kw = {k.arg: k.value for k in item.context_expr.keywords}
+    kw = {k.arg: k.value for k in aw_calls[0].keywords}
     ok = handle is not None and isinstance(kw.get('is_bytes'), ast.Constant) and kw['is_bytes'].value is True
     ctx.check('C12.W5', ok, bsp, w, 'BSP.save must bind the AtomicWriter handle and open it in bytes mode', func='BSP.save', text='with AtomicWriter(..., is_bytes=True) as file')
     wrappers = {handle}
@@ -248,7 +320,7 @@ def run(ctx: Any, prog: Program) -> None:
             buffers = {a.targets[0].id for a in ast.walk(save) if isinstance(a, ast.Assign) and isinstance(a.value, ast.Call) and dotted(a.value.func) == 'BytesIO' and isinstance(a.targets[0], ast.Name)}
             ok = (inside and recv in wrappers) or recv in buffers
             ctx.check('C12.W5', ok, bsp, n, f'`{ast.unparse(n)[:60]}` writes to `{recv}`, which is not the AtomicWriter handle (or an in-memory buffer)', func='BSP.save', text=f'write via {recv}')
-        if isinstance(n, ast.Call) and (dotted(n.func) == 'open' or (isinstance(n.func, ast.Attribute) and n.func.attr == 'open')):
+        if isinstance(n, ast.Call) and _is_open(n) and not any(n is c for c in cands):
             ctx.check('C12.W5', False, bsp, n, 'BSP.save opens a file itself; all output must go through AtomicWriter', func='BSP.save', text='open in save')
     # DeferredWrites writes through the file object it was given
     dw = prog.module('binformat')
@@ -260,6 +332,10 @@ def run(ctx: Any, prog: Program) -> None:
 
 
 MUTANTS = [
+    {'id': 'direct_open_for_new_file', 'file': 'bsp.py', 'find': "        with AtomicWriter(filename or self.filename, is_bytes=True) as file:", 'replace': "        dest = filename or self.filename\n        out: Any = AtomicWriter(dest, is_bytes=True) if os.path.exists(dest) else open(dest, 'wb')\n        with out as file:", 'expect': 'C12.W5'},
+    {'id': 'atomic_writer_via_local', 'file': 'bsp.py', 'find': "        with AtomicWriter(filename or self.filename, is_bytes=True) as file:", 'replace': "        out = AtomicWriter(filename or self.filename, is_bytes=True)\n        with out as file:", 'expect': None},
+    {'id': 'fallible_call_after_tempfile', 'file': '__init__.py', 'find': "        self.make_tempfile()\n        assert self.temp is not None\n", 'replace': "        self.make_tempfile()\n        assert self.temp is not None\n        try:\n            _os.chmod(self.temp.name, _os.stat(self.filename).st_mode & 0o777)\n        except FileNotFoundError:\n            pass\n", 'expect': 'C12.W3'},
+    {'id': 'protected_call_after_tempfile', 'file': '__init__.py', 'find': "        self.make_tempfile()\n        assert self.temp is not None\n", 'replace': "        self.make_tempfile()\n        assert self.temp is not None\n        try:\n            _os.chmod(self.temp.name, _os.stat(self.filename).st_mode & 0o777)\n        except OSError:\n            pass\n", 'expect': None},
     {'id': 'reopen_remembered_name', 'file': '__init__.py', 'find': "        for i in _itertools.count(start=1):\n            self._temp_name = self.filename.with_name(f'tmp_{i}')", 'replace': "        if self._temp_name is not None:\n            self.temp = self._temp_name.open('wb')\n            return\n        for i in _itertools.count(start=1):\n            self._temp_name = self.filename.with_name(f'tmp_{i}')", 'expect': 'C12.W4'},
     {'id': 'truncate_destination_first', 'file': '__init__.py', 'find': "        # Create folders if needed.\n        self.filename.parent.mkdir(parents=True, exist_ok=True)\n", 'replace': "        # Create folders if needed.\n        self.filename.parent.mkdir(parents=True, exist_ok=True)\n        self.filename.unlink(missing_ok=True)\n", 'expect': 'C12.W1'},
     {'id': 'never_closed_before_replace', 'file': '__init__.py', 'find': "                temp, self.temp = self.temp, None\n                temp.__exit__(exc_type, exc_value, tback)\n", 'replace': "                temp, self.temp = self.temp, None\n", 'expect': 'C12.W2'},
